@@ -47,16 +47,7 @@ func execInSubprocessT(c *Check, p *drv.Plan, self string, limit time.Duration) 
 		return nil, true, "hang", stderr
 	}
 	if err != nil {
-		kind = "exit"
-		switch {
-		case strings.Contains(stderr, "WARNING: DATA RACE"):
-			kind = "race"
-		case strings.Contains(stderr, "fatal error:"):
-			kind = "fatal"
-		case strings.Contains(stderr, "WATCHDOG"):
-			kind = "hang"
-		}
-		return nil, true, kind, stderr
+		return nil, true, crashKind(stderr), stderr
 	}
 	var r execResult
 	if err := json.Unmarshal([]byte(so.String()), &r); err != nil || r.Out == nil {
@@ -64,6 +55,23 @@ func execInSubprocessT(c *Check, p *drv.Plan, self string, limit time.Duration) 
 	}
 	return r.Out, false, "", stderr
 }
+
+// crashKind classifies the stderr of a process that died.
+func crashKind(stderr string) string {
+	switch {
+	case strings.Contains(stderr, "WARNING: DATA RACE"):
+		return "race"
+	case strings.Contains(stderr, "fatal error:"):
+		return "fatal"
+	case strings.Contains(stderr, "WATCHDOG"):
+		return "hang"
+	case strings.Contains(stderr, "\npanic: ") || strings.HasPrefix(stderr, "panic: "):
+		return "panic"
+	}
+	return "exit"
+}
+
+var numRe = regexp.MustCompile(`0x[0-9a-f]+|[0-9]+`)
 
 var frameRe = regexp.MustCompile(`github\.com/cosmos/iavl[^\s(]*\.([A-Za-z0-9_\.\(\)\*]+)\(`)
 
@@ -113,6 +121,15 @@ func crashViolation(c *Check, kind, stderr string) *drv.Violation {
 		v.Class = "data-race"
 	case "hang":
 		v.Site = crashSite(stderr, "WATCHDOG")
+	case "panic":
+		i := strings.Index(stderr, "panic: ")
+		msg := firstLine(stderr[i:])
+		// the message without addresses and numbers is the class
+		v.Class = strings.TrimSpace(numRe.ReplaceAllString(strings.TrimPrefix(msg, "panic: "), "N"))
+		if len(v.Class) > 80 {
+			v.Class = v.Class[:80]
+		}
+		v.Site = crashSite(stderr, "panic: ")
 	}
 	v.Detail = kind + ": " + tail(stderr, 3000)
 	return v
@@ -335,7 +352,7 @@ func minimiseAndWrite(c *Check, p *drv.Plan, v *drv.Violation, self string) (str
 		q = q.Clone()
 		q.Expect = &drv.Expect{Prop: vv.Prop, Oracle: vv.Oracle, Symptom: vv.Symptom, Class: vv.Class, Site: vv.Site, Detail: firstLine(vv.Detail)}
 		name := fmt.Sprintf("%s-%s-%d-%d%s.json", c.ID, sanitize(vv.Oracle+"-"+vv.Symptom+"-"+vv.Class), q.Seed, q.Run, suffix)
-		path := filepath.Join(Root(), "replays", name)
+		path := filepath.Join(ReplayDir(), name)
 		b, _ := json.MarshalIndent(q, "", " ")
 		_ = os.WriteFile(path, b, 0o644)
 		return path
